@@ -118,6 +118,7 @@ func rewriteDir(src, dst string, extra map[string]string, tests bool, keep map[s
 	// that name elsewhere is a read-modify-write another thread's atomic update can fall into; it is split in two
 	// with a scheduling point in between, so that the explorer can produce the lost update
 	atomicFields = map[string]bool{}
+	mapNames = map[string]bool{}
 	for _, e := range ents {
 		n := e.Name()
 		if !strings.HasSuffix(n, ".go") || strings.HasSuffix(n, "_test.go") {
@@ -127,6 +128,7 @@ func rewriteDir(src, dst string, extra map[string]string, tests bool, keep map[s
 		if err != nil {
 			continue
 		}
+		collectMapNames(f)
 		ast.Inspect(f, func(x ast.Node) bool {
 			ce, ok := x.(*ast.CallExpr)
 			if !ok {
@@ -209,6 +211,9 @@ func rewriteFile(fset *token.FileSet, f *ast.File, extra map[string]string) {
 		}
 	}
 	used := false
+	if !strings.HasSuffix(fset.Position(f.Pos()).Filename, "_test.go") && instrumentMaps(f) {
+		used = true
+	}
 	selN := 0
 	goN := 0
 	for _, d := range f.Decls {
@@ -418,4 +423,227 @@ func splitRMW(x ast.Expr, op token.Token, v ast.Expr) ast.Stmt {
 		&ast.ExprStmt{X: call(&ast.SelectorExpr{X: sel("vrt", "R"), Sel: ast.NewIdent("Point")}, sel("vrt", "KAtomic"))},
 		&ast.AssignStmt{Lhs: []ast.Expr{x}, Tok: token.ASSIGN, Rhs: []ast.Expr{&ast.BinaryExpr{X: t, Op: op, Y: v}}},
 	}}
+}
+
+// ---- map accesses (happens-before race check, vrt/hb.go)
+
+// mapNames: names of struct fields, variables and locals of the package whose declared type contains a map (or
+// that are assigned a map / an alias of such a field). The match at an access is by name only; vrt.MapAcc ignores
+// whatever is not a map at run time.
+var mapNames = map[string]bool{}
+
+func containsMapType(e ast.Expr) bool {
+	found := false
+	ast.Inspect(e, func(n ast.Node) bool {
+		if _, ok := n.(*ast.MapType); ok {
+			found = true
+		}
+		return !found
+	})
+	return found
+}
+
+func isMapValue(e ast.Expr) bool {
+	switch x := e.(type) {
+	case *ast.CallExpr:
+		if id, ok := x.Fun.(*ast.Ident); ok && id.Name == "make" && len(x.Args) > 0 {
+			_, ok := x.Args[0].(*ast.MapType)
+			return ok
+		}
+	case *ast.CompositeLit:
+		_, ok := x.Type.(*ast.MapType)
+		return ok
+	}
+	return false
+}
+
+func collectMapNames(f *ast.File) {
+	for pass := 0; pass < 2; pass++ {
+		ast.Inspect(f, func(n ast.Node) bool {
+			switch x := n.(type) {
+			case *ast.Field:
+				if x.Type != nil && containsMapType(x.Type) {
+					if _, isFunc := x.Type.(*ast.FuncType); !isFunc {
+						for _, nm := range x.Names {
+							mapNames[nm.Name] = true
+						}
+					}
+				}
+			case *ast.ValueSpec:
+				if x.Type != nil && containsMapType(x.Type) {
+					for _, nm := range x.Names {
+						mapNames[nm.Name] = true
+					}
+				}
+				for i, v := range x.Values {
+					if i < len(x.Names) && (isMapValue(v) || mapBase(v) != "") {
+						mapNames[x.Names[i].Name] = true
+					}
+				}
+			case *ast.AssignStmt:
+				for i, v := range x.Rhs {
+					if i < len(x.Lhs) && len(x.Lhs) == len(x.Rhs) {
+						if id, ok := x.Lhs[i].(*ast.Ident); ok && id.Name != "_" && (isMapValue(v) || (pass == 1 && mapBase(v) != "")) {
+							mapNames[id.Name] = true
+						}
+					}
+				}
+			}
+			return true
+		})
+	}
+}
+
+// mapBase: the candidate name at the root of a pure access path (idents, selectors, indexing), "" otherwise.
+func mapBase(e ast.Expr) string {
+	switch x := e.(type) {
+	case *ast.Ident:
+		if mapNames[x.Name] {
+			return x.Name
+		}
+	case *ast.SelectorExpr:
+		if !pureExpr(x.X) {
+			return ""
+		}
+		if mapNames[x.Sel.Name] {
+			return x.Sel.Name
+		}
+	case *ast.IndexExpr:
+		if pureExpr(x.Index) {
+			return mapBase(x.X)
+		}
+	case *ast.ParenExpr:
+		return mapBase(x.X)
+	}
+	return ""
+}
+
+func pureExpr(e ast.Expr) bool {
+	switch x := e.(type) {
+	case *ast.Ident, *ast.BasicLit:
+		return true
+	case *ast.SelectorExpr:
+		return pureExpr(x.X)
+	case *ast.IndexExpr:
+		return pureExpr(x.X) && pureExpr(x.Index)
+	case *ast.ParenExpr:
+		return pureExpr(x.X)
+	case *ast.StarExpr:
+		return pureExpr(x.X)
+	case *ast.BinaryExpr:
+		return pureExpr(x.X) && pureExpr(x.Y)
+	case *ast.UnaryExpr:
+		return x.Op != token.ARROW && pureExpr(x.X)
+	}
+	return false
+}
+
+func cloneExpr(e ast.Expr) ast.Expr {
+	switch x := e.(type) {
+	case *ast.Ident:
+		return ast.NewIdent(x.Name)
+	case *ast.BasicLit:
+		return &ast.BasicLit{Kind: x.Kind, Value: x.Value}
+	case *ast.SelectorExpr:
+		return &ast.SelectorExpr{X: cloneExpr(x.X), Sel: ast.NewIdent(x.Sel.Name)}
+	case *ast.IndexExpr:
+		return &ast.IndexExpr{X: cloneExpr(x.X), Index: cloneExpr(x.Index)}
+	case *ast.ParenExpr:
+		return &ast.ParenExpr{X: cloneExpr(x.X)}
+	case *ast.StarExpr:
+		return &ast.StarExpr{X: cloneExpr(x.X)}
+	case *ast.BinaryExpr:
+		return &ast.BinaryExpr{X: cloneExpr(x.X), Op: x.Op, Y: cloneExpr(x.Y)}
+	case *ast.UnaryExpr:
+		return &ast.UnaryExpr{Op: x.Op, X: cloneExpr(x.X)}
+	}
+	return e
+}
+
+type mapAccess struct {
+	x     ast.Expr
+	write bool
+}
+
+// stmtMapAccesses: accesses made by the statement itself (its nested blocks are statements lists of their own).
+func stmtMapAccesses(s ast.Stmt) []mapAccess {
+	var out []mapAccess
+	writes := map[ast.Expr]bool{}
+	switch x := s.(type) {
+	case *ast.AssignStmt:
+		for _, l := range x.Lhs {
+			writes[l] = true
+		}
+	case *ast.IncDecStmt:
+		writes[x.X] = true
+	}
+	ast.Inspect(s, func(n ast.Node) bool {
+		switch x := n.(type) {
+		case *ast.BlockStmt, *ast.FuncLit:
+			return false
+		case *ast.CaseClause, *ast.CommClause:
+			return false
+		case *ast.RangeStmt:
+			if x != s {
+				return false
+			}
+			if mapBase(x.X) != "" {
+				out = append(out, mapAccess{x.X, false})
+			}
+		case *ast.IndexExpr:
+			if mapBase(x.X) != "" {
+				out = append(out, mapAccess{x.X, writes[ast.Expr(x)]})
+			}
+		case *ast.CallExpr:
+			if id, ok := x.Fun.(*ast.Ident); ok && id.Name == "delete" && len(x.Args) == 2 && mapBase(x.Args[0]) != "" {
+				out = append(out, mapAccess{x.Args[0], true})
+			}
+		}
+		return true
+	})
+	return out
+}
+
+func mapAccStmt(a mapAccess) ast.Stmt {
+	w := "false"
+	if a.write {
+		w = "true"
+	}
+	return &ast.ExprStmt{X: call(sel("vrt", "MapAcc"), cloneExpr(a.x), ast.NewIdent(w))}
+}
+
+// instrumentMaps inserts vrt.MapAcc(<map>, <write>) before every statement that reads, writes, deletes from or
+// ranges over a candidate map, and at the top of every range body (each iteration step is a read).
+func instrumentMaps(f *ast.File) bool {
+	any := false
+	fix := func(list []ast.Stmt) []ast.Stmt {
+		var out []ast.Stmt
+		for _, s := range list {
+			inner := s
+			if l, ok := s.(*ast.LabeledStmt); ok {
+				inner = l.Stmt
+			}
+			for _, a := range stmtMapAccesses(inner) {
+				out = append(out, mapAccStmt(a))
+				any = true
+			}
+			if r, ok := inner.(*ast.RangeStmt); ok && mapBase(r.X) != "" && r.Body != nil {
+				r.Body.List = append([]ast.Stmt{mapAccStmt(mapAccess{r.X, false})}, r.Body.List...)
+			}
+			out = append(out, s)
+		}
+		return out
+	}
+	ast.Inspect(f, func(n ast.Node) bool {
+		switch x := n.(type) {
+		case *ast.BlockStmt:
+			x.List = fix(x.List)
+		case *ast.CaseClause:
+			x.Body = fix(x.Body)
+		case *ast.CommClause:
+			x.Body = fix(x.Body)
+		}
+		return true
+	})
+	return any
 }
